@@ -55,6 +55,7 @@ class FnSpec:
         self.cover_thorough_only = False
         self.split = 1
         self.solver = None
+        self.optional = False   # assume-contract for a stub that need not be reached
 
 
 class UnitSpec:
@@ -70,6 +71,7 @@ class UnitSpec:
         self.emit = []         # (qname, regex on cname or None)
         self.aliases = []
         self.stub_aliases = []
+        self.stub_by_signature = []
         self.callable_policy = []
         self.inline_only = []
         self.counters = False
@@ -162,6 +164,8 @@ def parse(u, path):
                 # callable <policy> <regex on stub name>
                 pol, _, rx = rest.partition(' ')
                 u.callable_policy.append((rx.strip(), pol.strip()))
+            elif kw == 'stub-by-signature':
+                u.stub_by_signature.append(rest)
             elif kw == 'stub-alias':
                 a, _, b = rest.partition('=>')
                 u.stub_aliases.append((a.strip(), b.strip()))
@@ -277,6 +281,8 @@ def parse(u, path):
             cur.signature = rest
         elif kw == 'inputs':
             cur.inputs += rest.replace(',', ' ').split()
+        elif kw == 'optional':
+            cur.optional = True
         elif kw == 'nocheck':
             cur.check = False
         elif kw == 'nocover':
